@@ -291,6 +291,25 @@ pub fn run(tier: Tier) -> i32 {
             }
             cases.push(Case { name: format!("greeting methods={:02x?} + request, byte at a time", l), greeting: gg.clone(), request: Some(good_req.clone()), cuts: (1..tot).collect(), expect_method_ok: ok, expect_tunnel: if ok { Some(a4) } else { None }, truncated: false });
         }
+        if let Some(t6) = &w.t6
+            && let SocketAddr::V6(v6) = t6.addr
+        {
+            // IPv6 request fragmented
+            let r6 = req(5, 1, 0, 4, &v6.ip().octets(), t6.addr.port());
+            let tot = g.len() + r6.len();
+            for cut in 1..tot {
+                cases.push(Case { name: format!("ipv6 exchange cut at {cut}"), greeting: g.clone(), request: Some(r6.clone()), cuts: vec![cut], expect_method_ok: true, expect_tunnel: Some(t6.addr), truncated: false });
+            }
+            cases.push(Case { name: "ipv6 exchange byte at a time".into(), greeting: g.clone(), request: Some(r6.clone()), cuts: (1..tot).collect(), expect_method_ok: true, expect_tunnel: Some(t6.addr), truncated: false });
+        }
+        // every port byte pattern that could be mangled: boundary ports on the second IPv4 target are not bindable at will,
+        // so requests to refusing ports with telling byte patterns must fail (never reach a listener)
+        for port in [0u16, 1, 255, 256, 0x0100, 0xff00, 0x00ff, 65535] {
+            if port == a4.port() || port == a4b.port() {
+                continue;
+            }
+            cases.push(Case { name: format!("CONNECT to 127.0.0.3:{port} (nothing listens)"), greeting: g.clone(), request: Some(req(5, 1, 0, 1, &[127, 0, 0, 3], port)), cuts: vec![], expect_method_ok: true, expect_tunnel: None, truncated: false });
+        }
         {
             // domain request fragmented
             let dr = req(5, 1, 0, 3, &[9, b'l', b'o', b'c', b'a', b'l', b'h', b'o', b's', b't'], a4.port());
